@@ -61,15 +61,37 @@ func (dt *depTracker) addDep(s string) {
 	dt.deps = append(dt.deps, s)
 }
 
+// splitSpecs splits every grouped const or var declaration into one
+// declaration per spec, so that each definition is ordered by its own
+// dependencies rather than by those of the whole group.
+func splitSpecs(ds []ast.Decl) []ast.Decl {
+	var units []ast.Decl
+	for _, d := range ds {
+		gd, ok := d.(*ast.GenDecl)
+		if !ok || (gd.Tok != token.CONST && gd.Tok != token.VAR) || len(gd.Specs) <= 1 {
+			units = append(units, d)
+			continue
+		}
+		for _, spec := range gd.Specs {
+			one := *gd
+			one.Specs = []ast.Spec{spec}
+			units = append(units, &one)
+		}
+	}
+	return units
+}
+
 // Decls converts an entire package (possibly multiple files) to a list of decls
 func (ctx Ctx) Decls(fs ...NamedFile) (imports coq.ImportDecls, decls []coq.Decl, errs []error) {
 	declGroups := make(map[declId][]coq.Decl)
 	declDeps := make(map[declId][]string)
 	nameDecls := make(map[string]declId)
 	generated := make(map[declId]bool)
+	fileDecls := make([][]ast.Decl, len(fs))
 
 	for fi, f := range fs {
-		for di, d := range f.Ast.Decls {
+		fileDecls[fi] = splitSpecs(f.Ast.Decls)
+		for di, d := range fileDecls[fi] {
 			ctx.dep = &depTracker{}
 
 			id := declId{fi, di}
@@ -124,7 +146,7 @@ func (ctx Ctx) Decls(fs ...NamedFile) (imports coq.ImportDecls, decls []coq.Decl
 			decls = append(decls, coq.NewComment(f.Ast.Doc.Text()))
 		}
 		lastFile = fi
-		for di := range f.Ast.Decls {
+		for di := range fileDecls[fi] {
 			processDecl(declId{fi, di}, "")
 		}
 	}
